@@ -288,6 +288,18 @@ fn check_pair(a: &Key, sa: &Spec, b: &Key, sb: &Spec) -> Result<(), Fail> {
 
 fn check_single(a: &Key, sa: &Spec) -> Result<(), Fail> {
     ensure!(a == a && a.cmp(a) == Ordering::Equal, "not-reflexive", "key not equal to itself: {:?}", sa);
+    if sa.labels.len() >= 2 {
+        // equality must not depend on what this thread compared before: compare with the same labels in reverse
+        // order (whatever the answer), then the key with itself, its clone and a rebuilt copy again
+        let mut rl = owned_labels(sa);
+        rl.reverse();
+        let ra = Key::from_parts(sa.name.clone(), rl);
+        let first = *a == ra;
+        let again = *a == ra;
+        ensure!(first == again, "eq-not-a-function-of-its-operands", "a == reversed(a) gave {} and then {} for {:?}", first, again, sa);
+        let rebuilt = Key::from_parts(sa.name.clone(), owned_labels(sa));
+        ensure!(a == a && *a == a.clone() && *a == rebuilt && ra == ra.clone(), "not-reflexive", "after comparing it with its label-reversed twin, a key is no longer equal to itself, its clone or a rebuilt copy: {:?}", sa);
+    }
     ensure!(a.name() == sa.name, "name-mismatch", "name() {:?} != {:?}", a.name(), sa.name);
     let got: Vec<(String, String)> = a.labels().map(|l| (l.key().to_string(), l.value().to_string())).collect();
     ensure!(got == sa.labels, "labels-mismatch", "labels() {:?} != {:?}", got, sa.labels);
